@@ -85,6 +85,17 @@ def run(ctx):
             seen.add(k)
             cases.append(j)
     ctx.note("deep_trees_sampled", len(seen))
+    # the neighbourhood of rule-conforming constructs: every tree within <= 2 grammar steps (add a node, copy a sub-tree
+    # next to itself or into another group, add a flattened copy) of 8 valid base constructs - exhaustive
+    rn = ctx.tlc("MC_HedRules", "MC_HedRules_near.cfg", workers=1, label="neighbourhood of valid constructs (<= 2 steps, exhaustive)", timeout=3000)
+    nn = 0
+    for j in rn.json_lines:
+        k = json.dumps([j["par"], j["kind"]])
+        if k not in seen and j["nviol"] <= 1:
+            seen.add(k)
+            cases.append(j)
+            nn += 1
+    ctx.note("neighbourhood_trees", nn)
     versions = [v for v, _ in facts.bundled()]
     jobs = []
     CH = 2000
